@@ -103,6 +103,36 @@ def run(ck: Check) -> None:
                 ck.violation("an error while signing the j-th artifact left a modified file", {"artifact_index": j, "of": nart, "opens": log3}, "c18-sign-fault-modified")
             ck.nontrivial_add((di, "sign", j))
     ck.count("fault-points", total_points)
+    # the step machine of the model: for every fault index before its output phase the file is unchanged and never opened for writing
+    # (the executable counterpart of theorem fault_anywhere_before_output), and the fault-free run matches the observed run
+    slines = []
+    for ln, signed in zip(lines, expect_opens):
+        docenc, keyenc = ln[len("signrepofile "):].rsplit(" ", 1)
+        fileb = gen.oracle_bytes(proto.dec(docenc))
+        slines.append(("ok", fileb, signed, f"signsteps x{fileb.hex()} {keyenc} -"))
+    for item in list(slines):
+        _, fileb, signed, base = item
+        for kf in range(0, 40):
+            slines.append(("fault", fileb, signed, base[:-1] + str(kf)))
+    answers = ck.driver.run([x[3] for x in slines])
+    for (kind, fileb, signed, ln), ans in zip(slines, answers):
+        ck.evaluations += 1
+        parts = dict(p.split("=", 1) for p in ans.split(" ")[1:] if "=" in p)
+        res = ans.split(" ")[0]
+        nsteps = int(parts.get("steps", "0"))
+        bad = None
+        if kind == "ok":
+            if not (res == "done" and parts.get("opens") == "rw" and parts.get("file") == signed.hex()):
+                bad = "fault-free run of the step machine differs from the observed run (opens r,w; signed bytes)"
+        else:
+            k = int(ln.rsplit(" ", 1)[1])
+            if k < nsteps - 2 and not (res == f"injected:{k}" and "w" not in parts.get("opens", "") and parts.get("file") == fileb.hex()):
+                bad = "step machine: a fault before the output phase changed the file or opened it for writing"
+        if bad:
+            ck.mismatch_total += 1
+            ck.mismatch_kinds["step-machine:" + kind] = ck.mismatch_kinds.get("step-machine:" + kind, 0) + 1
+            if len(ck.mismatches) < 8:
+                ck.mismatches.append({"corr": "corr:in-place-signing/open-sequence+file-bytes", "line": ln[:600], "impl": bad, "model": ans[:300], "tag": kind, "meta": {}, "stdout_encoding": "utf-8"})
     # file bytes of the successful runs vs the model
     for ln, want, got in zip(lines, expect_opens, ck.driver.run(lines)):
         ck.evaluations += 1
@@ -128,6 +158,17 @@ def run(ck: Check) -> None:
             ck.violation("signing malformed input / with a bad key did not fail", {"case": name}, "c18-malformed-accepted:" + name)
         if open(fn, "rb").read() != content:
             ck.violation("a call that failed on malformed input or a bad key modified the file", {"case": name, "error": repr(exc)[:200]}, "c18-malformed-modified:" + name)
+        # the model's run on the same malformed input: failed, file untouched, same opens
+        if isinstance(key, (str, type(None))):
+            ans = ck.driver.run([f"signsteps x{content.hex()} {proto.enc(key)} -"])[0]
+            parts = dict(p.split("=", 1) for p in ans.split(" ")[1:] if "=" in p)
+            want_opens = "".join("r" if "r" in m else "w" for _, m, _ in log)
+            mclass = ans.split(" ")[0]
+            iclass = "failed:" + (impl.classify(exc) if exc else "none")
+            if not (mclass == iclass and parts.get("file") == content.hex() and parts.get("opens") == want_opens):
+                ck.mismatch_total += 1
+                ck.mismatch_kinds["step-machine:malformed:" + name] = 1
+                ck.mismatches.append({"corr": "corr:in-place-signing/open-sequence+file-bytes", "line": f"signsteps <{name}>", "impl": f"{iclass} opens={want_opens}", "model": ans[:200], "tag": name, "meta": {}, "stdout_encoding": "utf-8"})
     # the CLI aborts before touching the file on a bad key
     kf = os.path.join(d, "c18-key.txt")
     for name, text in [("bad", "not a key"), ("short", "ab" * 31), ("empty", "")]:
